@@ -25,7 +25,8 @@ VARIABLES sess,     \* key -> [rows, last, start, end] | Nil       (sessionMap)
           out,      \* delivered batches [key, start, end, ids, kind, maxAt]
           emitted,  \* [id, ts, key, late]
           hist
-vars == <<sess, open, maxTs, wmCur, wmSent, wmChan, tpc, twm, pend, out, emitted, hist>>
+VARIABLE lq        \* Add is inside handleLateData: the late re-delivery computed and not yet sent (sw.mu is released while it is sent)
+vars == <<sess, open, maxTs, wmCur, wmSent, wmChan, tpc, twm, pend, out, emitted, hist, lq>>
 
 Nil == [rows |-> <<>>, last |-> -1, start |-> -1, end |-> -1]
 NoWm == -1000
@@ -36,7 +37,7 @@ Init ==
   /\ sess = [k \in Keys |-> Nil] /\ open = <<>>
   /\ maxTs = -1 /\ wmCur = NoWm /\ wmSent = NoWm /\ wmChan = <<>>
   /\ tpc = "idle" /\ twm = NoWm /\ pend = <<>>
-  /\ out = <<>> /\ emitted = <<>> /\ hist = <<>>
+  /\ out = <<>> /\ emitted = <<>> /\ hist = <<>> /\ lq = <<>>
 
 NewMax(ts) == IF maxTs = -1 \/ ts > maxTs THEN ts ELSE maxTs
 NewWm(ts)  == IF (maxTs = -1 \/ ts > maxTs) /\ ts - MOO > wmCur THEN ts - MOO ELSE wmCur
@@ -44,6 +45,7 @@ NewWm(ts)  == IF (maxTs = -1 \/ ts > maxTs) /\ ts - MOO > wmCur THEN ts - MOO EL
 Add(k, ts) ==
   /\ Len(emitted) < MaxEv
   /\ tpc \in {"idle", "fired"}
+  /\ lq = <<>>                             \* one producer: the previous Add has returned
   /\ LET id   == Len(emitted) + 1
          row  == [id |-> id, ts |-> ts]
          wm1  == NewWm(ts)
@@ -63,18 +65,27 @@ Add(k, ts) ==
                  THEN \E i \in oi :
                         LET rows == Append(open[i].rows, row) IN
                         /\ open' = [open EXCEPT ![i].rows = rows]
-                        /\ out' = Append(out, [key |-> open[i].key, start |-> open[i].start, end |-> open[i].end,
-                                               ids |-> Ids(rows), kind |-> "late", maxAt |-> NewMax(ts), n |-> id])
+                        \* the re-delivery is sent with sw.mu released (LateSend); the trigger goroutine may run before it
+                        /\ out' = out
+                        /\ lq' = <<[key |-> open[i].key, start |-> open[i].start, end |-> open[i].end,
+                                    ids |-> Ids(rows), kind |-> "late", maxAt |-> NewMax(ts), n |-> id]>>
                         /\ sess' = sess
-                 ELSE UNCHANGED <<sess, open, out>>
+                 ELSE UNCHANGED <<sess, open, out, lq>>
           ELSE /\ sess' = [sess EXCEPT ![k] =
                     IF s = Nil THEN [rows |-> <<row>>, last |-> ts, start |-> ts, end |-> ts + T]
                     ELSE [rows |-> Append(s.rows, row),
                           last |-> IF ts > s.last THEN ts ELSE s.last,
                           start |-> s.start,
                           end |-> IF ts > s.last /\ ts + T > s.end THEN ts + T ELSE s.end]]
-               /\ UNCHANGED <<open, out>>
+               /\ UNCHANGED <<open, out, lq>>
   /\ UNCHANGED <<tpc, twm, pend>>
+
+\* handleLateData, second half: callback + send with sw.mu released, then the lock is taken again and Add returns
+LateSend ==
+  /\ lq # <<>>
+  /\ out' = Append(out, Head(lq)) /\ lq' = Tail(lq)
+  /\ hist' = Append(hist, [a |-> "latesend"])
+  /\ UNCHANGED <<sess, open, maxTs, wmCur, wmSent, wmChan, tpc, twm, pend, emitted>>
 
 \* checkAndTriggerSessions: collect under the lock, then (lock released) send
 Trig ==
@@ -92,7 +103,7 @@ Trig ==
      /\ open' = SelectSeq(op1, LAMBDA o : o.end + AL > wm)         \* closeExpiredSessions
      /\ pend' = bat /\ tpc' = "fired"
      /\ hist' = Append(hist, [a |-> "trig"])
-  /\ UNCHANGED <<maxTs, wmCur, wmSent, out, emitted>>
+  /\ UNCHANGED <<maxTs, wmCur, wmSent, out, emitted, lq>>
 
 Send ==
   /\ tpc = "fired"
@@ -100,7 +111,7 @@ Send ==
                                              ids |-> Ids(pend[i].rows), kind |-> "first", maxAt |-> maxTs, n |-> Len(emitted)]]
   /\ pend' = <<>> /\ tpc' = "idle"
   /\ hist' = Append(hist, [a |-> "send"])
-  /\ UNCHANGED <<sess, open, maxTs, wmCur, wmSent, wmChan, twm, emitted>>
+  /\ UNCHANGED <<sess, open, maxTs, wmCur, wmSent, wmChan, twm, emitted, lq>>
 
 \* Watermark.update (ticker, every WatermarkInterval): re-send a watermark that did not fit into the full channel.
 \* It takes only the watermark's own lock, so it may interleave anywhere.
@@ -108,11 +119,11 @@ Tick ==
   /\ wmCur > wmSent /\ Len(wmChan) < ChanCap
   /\ wmChan' = Append(wmChan, wmCur) /\ wmSent' = wmCur
   /\ hist' = Append(hist, [a |-> "tick"])
-  /\ UNCHANGED <<sess, open, maxTs, wmCur, tpc, twm, pend, out, emitted>>
+  /\ UNCHANGED <<sess, open, maxTs, wmCur, tpc, twm, pend, out, emitted, lq>>
 
-Quiet == tpc = "idle" /\ wmChan = <<>> /\ wmSent = wmCur
+Quiet == tpc = "idle" /\ wmChan = <<>> /\ wmSent = wmCur /\ lq = <<>>
 Complete == Len(emitted) = MaxEv /\ Quiet
-Next == (\E k \in Keys, ts \in 0..MaxTs : Add(k, ts)) \/ Trig \/ Send \/ Tick
+Next == (\E k \in Keys, ts \in 0..MaxTs : Add(k, ts)) \/ LateSend \/ Trig \/ Send \/ Tick
 Spec == Init /\ [][Next]_vars
 
 (* ======================= contract monitor (Abs, C10) ===================== *)
@@ -149,7 +160,7 @@ NoSplit == \A i, j \in 1..Len(out) : (i # j /\ out[i].kind = "first" /\ out[j].k
 \* C02 for sessions: a late event inside a fired session of its key that is still within the allowance is re-delivered with it
 LateOwedOK == \A i \in 1..Len(out) : out[i].kind = "late" =>
                  \E j \in 1..(i-1) : out[j].key = out[i].key /\ out[j].start = out[i].start /\ SeqSet(out[j].ids) \subseteq SeqSet(out[i].ids)
-NoLateDrop == \A id \in 1..Len(emitted) :
+NoLateDrop == lq = <<>> => \A id \in 1..Len(emitted) :
                  (emitted[id].late /\ \E i \in 1..Len(out) : /\ out[i].kind = "first" /\ out[i].key = emitted[id].key
                                                               /\ out[i].start <= emitted[id].ts /\ emitted[id].ts < out[i].end
                                                               /\ out[i].end + AL > emitted[id].wmAt /\ out[i].n < id)      \* delivered before the event was emitted
@@ -161,5 +172,5 @@ WmOK == /\ wmSent <= wmCur /\ (maxTs # -1 => wmCur = maxTs - MOO)
 OlderAbsorb == \E i \in 1..Len(out) : /\ out[i].kind = "late"
                                        /\ \E j \in 1..Len(out) : out[j].kind = "first" /\ out[j].key = out[i].key /\ out[j].start > out[i].start /\ out[j].n < out[i].n
 EmitScenario == (Emit /\ Complete /\ (OnlyLate => OlderAbsorb)) => PrintT(<<"SCEN", ToJson(hist)>>)
-View == <<sess, open, maxTs, wmCur, wmSent, wmChan, tpc, twm, pend, out, emitted>>
+View == <<sess, open, maxTs, wmCur, wmSent, wmChan, tpc, twm, pend, out, emitted, lq>>
 =============================================================================
